@@ -239,6 +239,71 @@ def check_read_filter(ctx, lib):
             ctx.note_inconclusive("ecb_read_filter path")
 
 
+def data_spellings(n_models):
+    """numeric spellings of DATA items: a fixed list of magnitudes plus strings drawn by z3 from the language of the real
+    num_literal regex (distinct models, blanks and signs included)"""
+    from coco.b09.grammar import grammar
+
+    from vf import rxsmt
+
+    fixed = ["1", "-3.25", "0.0015", "1E10", "1E-10", "2.5E-12", "1.5 E -11", ".000000001234", "123456789", "1E38", "-1E-38", ".5", "5.", "00012",
+             "1 E 3", "+7", "- 2", "6.02E+23", "9.999999999E-5", "0", "-0", "1E-5", "4.9E-10", "5.1E-10", "&HFF", "&H 1F"]
+    pat = grammar["num_literal"].re.pattern
+    L = rxsmt.lang(pat)
+    s = z3.String("spelling")
+    got = []
+    base = [z3.InRe(s, L), z3.Length(s) <= 9, z3.Length(s) >= 1]
+    block = []
+    for _ in range(n_models):
+        v, m = smt.check(base + block, 10000, True)
+        if v != "sat":
+            break
+        val = rxsmt.z3str(m.eval(s, True).as_string())
+        got.append(val)
+        block.append(s != z3.StringVal(val))
+        # steer towards variety: forbid the same length + first character combination more than a few times
+    return fixed, got
+
+
+def check_data_items(ctx, tier):
+    """the transpiler's half of the empty-DATA filter: when a DATA list has an empty item every numeric item is rewritten
+    as a string for ecb_read_filter to VAL(); the string must spell the same number the source item spells"""
+    from vf.realconv import classify
+
+    ctx.encode("visitors.BasicReadStatementPatcherVisitor.visit_data_statement", repo_source("coco/b09/visitors.py"))
+    fixed, drawn = data_spellings(12 if tier == "quick" else 60)
+    ctx.bounds["data_item_spellings"] = {"fixed": len(fixed), "drawn_from_num_literal_by_z3": len(drawn)}
+    for sp in fixed + drawn:
+        src = f"10 DATA {sp} , , 7\n20 READ A , B , C"
+        o = classify(src + "\n")
+        ctx.stats["programs"] += 1
+        ctx.stats["obligations"] += 1
+        if o[0] != "ok":
+            ctx.stats["identity"] += 1  # refused spellings are C15's subject
+            continue
+        mline = re.search(r"(?m)^\s*(?:\d+\s+)?DATA (.*)$", o[1])
+        if not mline:
+            ctx.harness_gap(f"no DATA line in the output for {src!r}")
+            continue
+        first = mline.group(1).split(",")[0].strip()
+        txt = sp.replace(" ", "")
+        try:
+            want = float(int(txt[2:], 16)) if txt.upper().startswith("&H") else float(txt)
+        except ValueError:
+            ctx.stats["identity"] += 1
+            continue
+        item = first.strip('"')
+        try:
+            got = float(item)
+        except ValueError:
+            got = None
+        if got is not None and got == want and first.startswith('"'):
+            ctx.stats["identity"] += 1
+        else:
+            mag = "tiny" if want != 0 and abs(want) < 1e-6 else "huge" if abs(want) >= 1e12 else "ordinary"
+            ctx.violation(f"data-item-value:{mag}", f"DATA item {sp!r} (= {want!r}) is handed to ecb_read_filter as {first} (= {got!r})", {"source": src, "emitted": o[1]})
+
+
 def run(tier):
     ctx = Ctx("C20", tier, "model_checking", technique="symbolic execution of the real ecb.b09 procedures by the BASIC09 machine over z3 strings (bounded length, interpreted LEN/MID$/FIX), loops unrolled by path forking, both zero-trip FOR readings; z3 decides result = Color BASIC definition per path")
     smt.reset_stats()
@@ -253,6 +318,7 @@ def run(tier):
     check_string(ctx, lib, K, maxcount)
     check_string_argument_check(ctx, lib, K)
     check_read_filter(ctx, lib)
+    check_data_items(ctx, tier)
     ctx.stats["traces_validated_against_impl"] += 0
     ctx.add_solver_stats(smt.STATS.export())
     ctx.extra["solver"] = {"z3": smt.z3_version()}
